@@ -7,9 +7,9 @@ import (
 	"os"
 	"runtime"
 	"runtime/debug"
-	"testing/synctest"
 	"strings"
 	"testing"
+	"testing/synctest"
 	"time"
 
 	"github.com/btcsuite/btcd/database"
@@ -549,7 +549,11 @@ func (s *sim) restartAfterFault(why string) bool {
 	s.postFault = true
 	s.restarts++
 	s.r.Count("restarts_after_io_error", 1)
-	s.r.Count("restart_why:"+strings.SplitN(why, ":", 2)[0], 1)
+	cat := strings.SplitN(why, ":", 2)[0]
+	if strings.HasPrefix(cat, "op ") {
+		cat = "operation refused"
+	}
+	s.r.Count("restart_why:"+cat, 1)
 	if s.restarts > 3 {
 		s.r.Count("gave_up_after_repeated_restarts", 1)
 		return false
